@@ -93,4 +93,122 @@ example :
     drawCells (fun _ : Nat => 1) true { (setContent new [0, 1, 2, 3, 4, 5] : TI Nat) with cursor := 0 } [] 5 =
       some [(0, .mask), (1, .mask), (2, .mask), (3, .mask), (4, .trunc)] := by decide
 
+/-! ### The scroll offset after `Draw` -/
+
+theorem scrollLoop_le {G : Type} (width : G → Int) (content : List G) (cursor col winW : Int) :
+    ∀ (fuel : Nat) (offset off : Int), scrollLoop width content cursor col winW fuel offset = some off →
+    offset ≤ off ∧ (off ≤ cursor ∨ off = offset) := by
+  intro fuel
+  induction fuel with
+  | zero => intro offset off h; simp [scrollLoop] at h
+  | succ n ih =>
+    intro offset off h
+    unfold scrollLoop at h
+    split at h
+    · rename_i hc
+      have := ih (offset + 1) off h
+      omega
+    · simp only [Option.some.injEq] at h
+      omega
+
+/-- `Draw` never leaves the view scrolled past the cursor: afterwards `0 ≤ offset ≤ cursor`. -/
+theorem draw_offset_le_cursor {G : Type} (width : G → Int) (m : TI G) (prompt : List G) (winW : Int) (h : TIInv m) :
+    ∀ m' c, draw width m prompt winW = .shown m' c → 0 ≤ m'.offset ∧ m'.offset ≤ m.cursor := by
+  intro m' c hd
+  obtain ⟨h0, h1, ho⟩ := h
+  unfold draw at hd
+  by_cases hw : winW = 0
+  · simp only [hw, ↓reduceIte] at hd; cases hd
+  · simp only [hw, ↓reduceIte] at hd
+    cases hp : promptLoop width winW prompt 0 with
+    | none => simp only [hp] at hd; cases hd
+    | some col =>
+      simp only [hp] at hd
+      cases hs : scrollLoop width m.content m.cursor col winW (m.content.length + 2)
+          (if widthToCursor width m.content.length 0 m.content 0 0 + col + 4 < winW then 0 else m.offset) with
+      | none => simp only [hs] at hd; cases hd
+      | some off =>
+        simp only [hs] at hd
+        have hl := scrollLoop_le width m.content m.cursor col winW _ _ off hs
+        cases hd
+        simp only
+        constructor
+        · split <;> omega
+        · split at hl <;> split <;> split <;> omega
+
+/-! ### Every written cell is inside the window -/
+
+theorem promptCells_in_window {G : Type} (width : G → Int) (hw : ∀ g, 0 ≤ width g) (winW : Int) :
+    ∀ (prompt : List G) (col : Int), 0 ≤ col → col < winW →
+    ∀ x ∈ promptCells width winW prompt col, 0 ≤ x.1 ∧ x.1 < winW := by
+  intro prompt
+  induction prompt with
+  | nil => intro col _ _ x hx; simp [promptCells] at hx
+  | cons g gs ih =>
+    intro col h0 h1 x hx
+    simp only [promptCells, List.mem_cons] at hx
+    rcases hx with rfl | hx
+    · exact ⟨h0, h1⟩
+    · split at hx
+      · simp at hx
+      · exact ih (col + width g) (by have := hw g; omega) (by omega) x hx
+
+theorem cellLoop_in_window {G : Type} (width : G → Int) (hw : ∀ g, 0 ≤ width g) (masked : Bool) (offset winW : Int) :
+    ∀ (l : List G) (i col : Int), 0 ≤ col → col < winW →
+    ∀ x ∈ cellLoop width masked offset winW l i col, 0 ≤ x.1 ∧ x.1 < winW := by
+  intro l
+  induction l with
+  | nil => intro i col _ _ x hx; simp [cellLoop] at hx
+  | cons g gs ih =>
+    intro i col h0 h1 x hx
+    unfold cellLoop at hx
+    split at hx
+    · exact ih (i + 1) col h0 h1 x hx
+    · simp only [List.mem_cons] at hx
+      rcases hx with rfl | hx
+      · exact ⟨h0, h1⟩
+      · split at hx
+        · simp at hx
+        · exact ih (i + 1) (col + width g) (by have := hw g; omega) (by omega) x hx
+
+theorem promptLoop_lt {G : Type} (width : G → Int) (hw : ∀ g, 0 ≤ width g) (winW : Int) :
+    ∀ (prompt : List G) (c col : Int), 0 ≤ c → c < winW → promptLoop width winW prompt c = some col → 0 ≤ col ∧ col < winW := by
+  intro prompt
+  induction prompt with
+  | nil => intro c col h0 h1 h; simp [promptLoop] at h; omega
+  | cons g gs ih =>
+    intro c col h0 h1 h
+    unfold promptLoop at h
+    simp only at h
+    split at h
+    · cases h
+    · exact ih _ _ (by have := hw g; omega) (by omega) h
+
+/-- Every cell `Draw` writes lies inside the window, for every window width and scroll state. -/
+theorem drawCells_in_window {G : Type} (width : G → Int) (hw : ∀ g, 0 ≤ width g) (masked : Bool) (m : TI G)
+    (prompt : List G) (winW : Int) (hpos : 0 < winW) (cells : List (Int × Glyph G))
+    (hd : drawCells width masked m prompt winW = some cells) :
+    ∀ x ∈ cells, 0 ≤ x.1 ∧ x.1 < winW := by
+  have hP := promptCells_in_window width hw winW prompt 0 (Int.le_refl 0) hpos
+  unfold drawCells at hd
+  split at hd
+  · cases hd
+  · simp only [Option.some.injEq] at hd
+    subst hd
+    split
+    · intro x hx; cases hx
+    · exact hP
+  · split at hd
+    · simp only [Option.some.injEq] at hd
+      subst hd
+      exact hP
+    · rename_i col hp
+      simp only [Option.some.injEq] at hd
+      subst hd
+      have hc := promptLoop_lt width hw winW prompt 0 col (Int.le_refl 0) hpos hp
+      intro x hx
+      rcases List.mem_append.mp hx with h | h
+      · exact hP x h
+      · exact cellLoop_in_window width hw masked _ winW m.content 0 col hc.1 hc.2 x h
+
 end VaxisModel.Lemmas.TextInput
